@@ -310,7 +310,6 @@ def dispose(net):
 
 
 def unit_correspondence(ctx):
-    drv = common.LeanDriver('Config')
     reqs, impl = [], []
     # itertools.combinations
     for n in range(0, ctx.scale(7, 9)):
@@ -339,9 +338,15 @@ def unit_correspondence(ctx):
                     ctx.case(('unit', m, t, i, j, no_prss), nontrivial=not no_prss)
                     if not no_prss:
                         reqs.append(f'to {m} {t} {i} {j}')
-                        impl.append(sh_subs([inv[bytes(k)] for k in net.ctx[i].run(rt._prss_keys_to_peer, j)]))
+                        try:
+                            impl.append(sh_subs([inv[bytes(k)] for k in net.ctx[i].run(rt._prss_keys_to_peer, j)]))
+                        except Exception as exc:
+                            impl.append(type(exc).__name__)
                         reqs.append(f'lenpacket {m} {t} {i} {j}')
-                        impl.append(str(net.ctx[i].run(rt._prss_keys_from_peer, j)))
+                        try:
+                            impl.append(str(net.ctx[i].run(rt._prss_keys_from_peer, j)))
+                        except Exception as exc:
+                            impl.append(type(exc).__name__)
                     # client bytes of connection_made
                     tr = _Tr()
                     cl = asyncoro.MessageExchanger(rt, j)
@@ -366,8 +371,7 @@ def unit_correspondence(ctx):
                         impl.append(feed_real_server(m, t, j, no_prss, seed, pieces))
                         ctx.count('server_handshake_chunks_' + str(min(len(pieces), 4)))
             dispose(net)
-    model = drv.run(reqs, timeout=900)
-    ctx.compare('Comb filters / key block / server handshake', impl, model, reqs)
+    BATCH.append(('Comb filters / key block / server handshake', reqs, impl))
 
 
 def feed_real_server(m, t, j, no_prss, seed, pieces):
@@ -392,7 +396,6 @@ def feed_real_server(m, t, j, no_prss, seed, pieces):
 
 def single_cut_sweep(ctx):
     """Every single cut position of one handshake (m=4,t=1 and m=5,t=2): real server vs model."""
-    drv = common.LeanDriver('Config')
     reqs, impl = [], []
     for (m, t, i, j) in [(4, 1, 0, 3), (5, 2, 1, 3)] + ([(6, 2, 0, 5), (7, 3, 2, 6)] if ctx.thorough else []):
         seed = ctx.subrng('cut', m, t).randrange(1 << 30)
@@ -405,7 +408,13 @@ def single_cut_sweep(ctx):
         cl = asyncoro.MessageExchanger(rt, j)
         for p in rt.parties:
             p.protocol = asyncio.Future(loop=net.loop) if p.pid == i else None
-        net.ctx[i].run(cl.connection_made, tr)
+        try:
+            net.ctx[i].run(cl.connection_made, tr)
+        except Exception as exc:
+            ctx.mismatch(f'connection_made raises {type(exc).__name__} (m={m}, t={t}, client {i} -> server {j})',
+                         {'kind': 'correspondence', 'what': 'connection_made', 'm': m, 't': t, 'client': i, 'server': j})
+            dispose(net)
+            continue
         stream = bytes(tr.data) + b'\x01\x02\x03'
         dispose(net)
         for c in range(len(stream) + 1):
@@ -413,8 +422,7 @@ def single_cut_sweep(ctx):
             reqs.append(f'server {m} {t} {j} 0 {hx(b"".join(toks[j]))} ' + ' '.join(hx(p) for p in pieces))
             impl.append(feed_real_server(m, t, j, False, seed, pieces))
             ctx.case(('cut', m, t, i, j, c))
-    model = drv.run(reqs, timeout=900)
-    ctx.compare('server handshake, every single cut', impl, model, reqs)
+    BATCH.append(('server handshake, every single cut', reqs, impl))
 
 
 # ---------------------------------------------------------------------------------------------
@@ -429,7 +437,6 @@ def replay_dict(r, probs):
 
 
 def explore(ctx, cases, tag):
-    drv = common.LeanDriver('Config')
     reqs, impl = [], []
     for (m, t, seed, mode, cm, no_prss) in cases:
         r = run_setup(m, t, seed, mode, cm, no_prss)
@@ -449,8 +456,7 @@ def explore(ctx, cases, tag):
                 ctx.sample({'m': m, 't': t, 'seed': seed, 'sched': f'{mode}/{cm}',
                             'handshake_order': [f'{j}>{i}:{c}' for j, i, c in r['events']][:6],
                             'keys_of_party_0': len(r['tables'][0])})
-    model = drv.run(reqs, timeout=900)
-    ctx.compare(f'final key tables ({tag})', impl, model, reqs)
+    BATCH.append((f'final key tables ({tag})', reqs, impl))
 
 
 def make_cases(ctx, rng, max_m, per_cfg, min_m=1):
@@ -463,7 +469,26 @@ def make_cases(ctx, rng, max_m, per_cfg, min_m=1):
     return cases
 
 
+BATCH = []   # (what, requests, implementation lines)
+
+
+def flush_batch(ctx):
+    """One Lean driver invocation for everything collected so far."""
+    parts = list(BATCH)
+    del BATCH[:]
+    allreq = [r for _, reqs, _ in parts for r in reqs]
+    model = common.LeanDriver('Config').run(allreq, timeout=1500)
+    if isinstance(model, common.DriverFailure):
+        ctx.compare('C16 driver batch', [], model, allreq)
+        return
+    pos = 0
+    for what, reqs, impl in parts:
+        ctx.compare(what, impl, model[pos:pos + len(reqs)], reqs)
+        pos += len(reqs)
+
+
 def run(ctx):
+    del BATCH[:]
     unit_correspondence(ctx)
     single_cut_sweep(ctx)
     rng = ctx.subrng('run')
@@ -475,11 +500,13 @@ def run(ctx):
         for (m, t) in rng.sample(big, 3):
             cases.append((m, t, rng.randrange(1 << 30), rng.choice(MODES), rng.choice(CHUNKS), False))
     explore(ctx, cases, 'run')
+    flush_batch(ctx)
 
 
 def search(ctx):
     rng = ctx.subrng('search')
     explore(ctx, make_cases(ctx, rng, 6, 12), 'search')
+    flush_batch(ctx)
 
 
 def replay(ctx, data):
